@@ -520,3 +520,28 @@ Proof.
     repeat constructor; cbn; try reflexivity; try (intros _; reflexivity).
   - repeat constructor; cbn; try lia; try assumption; try reflexivity.
 Qed.
+
+(* ------------------------------------------------------------------ *)
+(* BGP-MUP NLRI                                                          *)
+From RB Require Import Proofs.ApiMup.
+
+Theorem C17_mup_roundtrip :
+  forall v6p v6r n, v6_contract v6p v6r -> v6_nonempty v6p -> wf_mup n ->
+    mup_from_api v6r (mup_to_api v6p n) = Some n.
+Proof. exact mup_roundtrip. Qed.
+
+Theorem C17_mup_from_api_preserves_wf :
+  forall v6r x n, v6_range v6r -> api_mup_in_range x -> mup_from_api v6r x = Some n ->
+    wf_mup n /\ N.of_nat (length (mup_body n)) < 256.
+Proof. intros v6r x n Hr Hx H. split; [exact (mup_from_api_wf (fun _ => []) v6r x n Hr Hx H)|apply mup_body_fits]. Qed.
+
+Example mup_example :
+  let n := MupT1 (RD2 65000 1) (IP4 167772160) 8 305419896 9 (IP4 3221225985) None in
+  wf_mup n /\ wf_mup (MupT2 (RD2 65000 1) 48 (IP4 3221225985) 16908288)
+  /\ mup_from_api v6_parse (AMupT2 (ARd2 65000 1) 40 [49; 57; 50; 46; 48; 46; 50; 46; 49] 16909056) = None
+  /\ mup_from_api v6_parse (AMupIsd (ARd2 65000 1) [49; 48; 46; 48; 46; 48; 46; 49; 47; 56]) = None.
+Proof.
+  cbn zeta. split; [|split; [|split; vm_compute; reflexivity]].
+  - cbn. unfold wf_prefix. repeat split; cbn; try lia; try reflexivity.
+  - cbn. repeat split; try lia; try (intros _; vm_compute; reflexivity).
+Qed.
